@@ -94,6 +94,19 @@ FS = {
     "tempfile::NamedTempFile::new": ("FS_OPEN", None, {"create", "write", "temp"}),
     "tempfile::tempfile_in": ("FS_OPEN", 0, {"create", "write", "temp"}),
     "tempfile::tempfile": ("FS_OPEN", None, {"create", "write", "temp"}),
+    # tempfile::Builder: configuration calls have no effect of their own; the creating call opens a new file in the
+    # directory given as its second argument ("custom": creation delegated to a caller-supplied function)
+    "tempfile::Builder::new": ("PURE", None),
+    "tempfile::Builder::prefix": ("PURE", None),
+    "tempfile::Builder::suffix": ("PURE", None),
+    "tempfile::Builder::rand_bytes": ("PURE", None),
+    "tempfile::Builder::permissions": ("PURE", None),
+    "tempfile::Builder::append": ("PURE", None),
+    "tempfile::Builder::disable_cleanup": ("PURE", None),
+    "tempfile::Builder::tempfile_in": ("FS_OPEN", 1, {"create", "write", "temp"}),
+    "tempfile::Builder::tempfile": ("FS_OPEN", None, {"create", "write", "temp"}),
+    "tempfile::Builder::make_in": ("FS_OPEN", 1, {"create", "write", "temp", "custom"}),
+    "tempfile::Builder::make": ("FS_OPEN", None, {"create", "write", "temp", "custom"}),
 }
 
 # builder calls folded into the open mode (constant `true` argument)
@@ -243,12 +256,14 @@ PURE_OK_PREFIXES = (
     "std::ops::DerefMut::deref_mut", "std::convert::", "std::borrow::", "std::option::Option::",
     "std::result::Result::", "std::fmt::", "core::fmt::", "std::ops::Try::", "std::ops::FromResidual::",
     "std::io::BufWriter::<W>::new", "std::io::BufWriter::<W>::get_ref", "std::io::BufWriter::<W>::get_mut",
-    "std::io::BufWriter::<W>::with_capacity", "std::io::BufWriter::<W>::buffer",
+    "std::io::BufWriter::<W>::with_capacity", "std::io::BufWriter::<W>::buffer", "std::io::BufWriter::<W>::capacity",
+    "std::io::BufReader::<R>::buffer", "std::io::BufReader::<R>::capacity",
     "std::io::BufReader::<R>::new", "std::io::BufReader::<R>::with_capacity",
     "std::io::BufReader::<R>::get_ref", "std::io::IntoInnerError::", "std::mem::drop",
     "std::fs::OpenOptions::", "std::iter::", "std::vec::Vec::", "std::cmp::", "std::hash::",
     "std::sync::Arc::", "std::string::ToString::", "std::ffi::", "std::os::unix::ffi::",
     "std::mem::swap", "std::mem::replace", "std::mem::take", "tracing::", "std::hint::",
+    "std::mem::ManuallyDrop::<T>::into_inner", "std::mem::ManuallyDrop::into_inner",
     "std::sync::mpsc::", "thiserror::", "std::error::Error::", "std::slice::", "core::slice::",
     "std::collections::", "std::fs::Metadata::", "std::os::unix::fs::MetadataExt::",
     "std::fs::FileType::", "std::thread::spawn", "std::ops::Fn", "std::default::Default::",
